@@ -28,6 +28,24 @@ class C09(Prop):
         def newtok():
             tok[0] += 1
             return tok[0]
+        # one large un-marginalised batch (several location rows, more than ten thousand entries, columns that are impossible for some rows only):
+        # candidate selection must not depend on the size of a batch
+        for _big in range(1 if tier == 'quick' else 4):
+            nrows, k = 3, rng.choice([3400, 4000])
+            cands = []
+            for _c in range(k):
+                r_ = rng.random()
+                if r_ < 0.3:
+                    col = [NEG_INF] * nrows
+                elif r_ < 0.7:
+                    col = [rng.uniform(-50, 0) if rng.random() < 0.5 else NEG_INF for _r in range(nrows)]
+                    if all(v == NEG_INF for v in col):
+                        col[rng.randrange(nrows)] = rng.uniform(-5, 0)
+                else:
+                    col = [rng.uniform(-50, 0) for _r in range(nrows)]
+                cands.append({'tok': newtok(), 'sf': newtok(), 'col': col})
+            tok[0] = 0
+            yield {'kind': 'store', 'init': 1000, 'nevents': 1, 'nrows': nrows, 'batches': [{'cands': cands, 'n': k}], 'discard': 0.0, 'extra_n': 0}
         for i in range(n):
             if rng.random() < 0.85:
                 init = rng.choice([1, 2, 3, 4, 7])
